@@ -1,8 +1,9 @@
 #!/bin/sh
-# copy property-preserving changes written by sub-agents under /tmp/ben_Cxx/benign/bK into /verif/benign/Cxx_bK
-for d in /tmp/ben_C*/benign/b*/; do
+# copy property-preserving changes written by sub-agents into /verif/benign: /tmp/ben_Cxx/benign/bK -> Cxx_bK, /tmp/ben2_Cxx/benign/bK -> Cxx_cK
+for d in /tmp/ben_C*/benign/b*/ /tmp/ben2_C*/benign/b*/; do
   [ -f "$d/patch.diff" ] || continue
-  id=$(echo "$d" | sed -E 's#/tmp/ben_(C[0-9]+)/benign/b([0-9]+)/#\1_b\2#')
+  case "$d" in /tmp/ben2_*) s=c;; *) s=b;; esac
+  id=$(echo "$d" | sed -E "s#/tmp/ben2?_(C[0-9]+)/benign/b([0-9]+)/#\1_${s}\2#")
   mkdir -p /verif/benign/$id
   cp "$d/patch.diff" /verif/benign/$id/ 2>/dev/null
   [ -f "$d/why.md" ] && cp "$d/why.md" /verif/benign/$id/
